@@ -1018,6 +1018,10 @@ func ruleDetachBeforeAttach(w *World, r *Report) {
 					}
 				}
 			}
+			if iso == nil && w.callersIsolate(tm, fn, x) {
+				r.OK(key, w.InstrPos(at), "unexported helper: every caller isolates the node before the call")
+				continue
+			}
 			if iso == nil {
 				r.Bad(key, w.InstrPos(at), "a node is attached without first being detached from its previous parent")
 				continue
@@ -1162,6 +1166,10 @@ func ruleForeignGuard(w *World, r *Report) {
 							guarded = true
 						}
 					}
+				}
+				if !guarded && w.callersGuardParentOf(tm, m, p, self) {
+					r.OK(key, w.InstrPos(c), "unexported helper: every caller establishes "+p.Name()+".Parent() == self before the call")
+					continue
 				}
 				if guarded {
 					r.OK(key, w.InstrPos(c), "dominated by "+p.Name()+".Parent() == self")
@@ -2110,4 +2118,106 @@ func reachesInstr(a, b ssa.Instruction) bool {
 		stack = append(stack, x.Succs...)
 	}
 	return false
+}
+
+// helperCallSites: for an unexported function of package ast, its static call sites in the module (nil when the
+// function is exported, used as a value, or never called).
+func (w *World) helperCallSites(fn *ssa.Function) []*ssa.Call {
+	if obj := fn.Object(); obj == nil || obj.Exported() {
+		return nil
+	}
+	var out []*ssa.Call
+	for _, caller := range w.CG().In[fn] {
+		if caller.Synthetic != "" {
+			continue // promotion wrappers of the embedding node types: unexported methods are not reachable through them from outside
+		}
+		if !w.InModule(caller) {
+			return nil
+		}
+		for _, b := range caller.Blocks {
+			for _, ins := range b.Instrs {
+				if c, ok := ins.(*ssa.Call); ok && c.Common().StaticCallee() == fn {
+					out = append(out, c)
+				}
+			}
+		}
+	}
+	return out
+}
+
+// callersGuardParentOf: m is an unexported helper; at every call site the argument bound to p satisfies
+// arg.Parent() == <argument bound to self> on a dominating edge.
+func (w *World) callersGuardParentOf(tm *treeModel, m *ssa.Function, p *ssa.Parameter, self ssa.Value) bool {
+	sites := w.helperCallSites(m)
+	if len(sites) == 0 {
+		return false
+	}
+	pi := paramIndex(m, p)
+	si := -1
+	if sp, ok := self.(*ssa.Parameter); ok {
+		si = paramIndex(m, sp)
+	}
+	if pi < 0 || si < 0 {
+		return false
+	}
+	for _, c := range sites {
+		args := c.Common().Args
+		if pi >= len(args) || si >= len(args) {
+			return false
+		}
+		arg, selfArg := stripMakeIface(args[pi]), stripMakeIface(args[si])
+		guarded := false
+		for _, f := range dominatingConds(c.Block()) {
+			for _, a := range condAtoms(f.If.Cond, f.Truth) {
+				bo, ok := a.V.(*ssa.BinOp)
+				if !ok || (bo.Op != token.EQL && bo.Op != token.NEQ) {
+					continue
+				}
+				isParentOf := func(v ssa.Value) bool {
+					pc, ok := v.(*ssa.Call)
+					return ok && pc.Common().IsInvoke() && pc.Common().Method.Name() == "Parent" && stripMakeIface(pc.Common().Value) == arg
+				}
+				pair := (isParentOf(bo.X) && stripMakeIface(bo.Y) == selfArg) || (isParentOf(bo.Y) && stripMakeIface(bo.X) == selfArg)
+				if pair && (bo.Op == token.EQL) == a.Truth {
+					guarded = true
+				}
+			}
+		}
+		if !guarded {
+			return false
+		}
+	}
+	return true
+}
+
+// callersIsolate: fn is an unexported helper that attaches its parameter x; at every call site the isolating helper
+// was called on the corresponding argument on a dominating path.
+func (w *World) callersIsolate(tm *treeModel, fn *ssa.Function, x ssa.Value) bool {
+	xp, ok := x.(*ssa.Parameter)
+	if !ok {
+		return false
+	}
+	sites := w.helperCallSites(fn)
+	if len(sites) == 0 {
+		return false
+	}
+	xi := paramIndex(fn, xp)
+	for _, c := range sites {
+		if xi >= len(c.Common().Args) {
+			return false
+		}
+		arg := c.Common().Args[xi]
+		iso := false
+		for _, b := range c.Parent().Blocks {
+			for _, ins := range b.Instrs {
+				if ic, ok := ins.(*ssa.Call); ok && tm.isoFns[ic.Common().StaticCallee()] && ic.Common().Args[0] == arg && instrDominates(ins, c) {
+					iso = true
+				}
+			}
+		}
+		if !iso {
+			return false
+		}
+	}
+	return true
 }
